@@ -466,8 +466,7 @@ not have any effect."""
         >>> print(len(c))
         10
         """
-        if isgenerator(lits):
-            lits = list(lits)
+        lits = list(lits)
         if check:
             # dummy constraint, just to check the literals once
             self._check_and_update([(1,l) for l in lits]+ ['==',0])
